@@ -18,7 +18,7 @@ def run(v, tier, rng):
     tlc_require_ok(r, "Req liveness (C12)")
     v.add_tlc("proto/Req.tla:live", r)
     v.seed += 7          # behaviours different from the ones C04 replays
-    replay_sim(v, "req", False, "proto/Req.tla", "Req_sim.cfg", 12000 if thorough else 1500, 40, auto=True, setup=REQ_SETUP)
+    replay_sim(v, "req", False, "proto/Req.tla", "Req_sim.cfg", 12000 if thorough else 2500, 40, auto=True, setup=REQ_SETUP)
     v.cov["distinct_nontrivial"] = sum(x["walks"] for x in v.cov["edge_cover"].values())
     v.cov["rule"] = ("invariants on the complete bounded graph; EventuallyAnswered under WF of the last replier and of time; "
                      "TLC -simulate behaviours (depth 40) replayed in run-to-quiescence steps; distinct = distinct behaviours")
